@@ -380,6 +380,14 @@ func c16SpecialNames() *c16Names {
 	return nm
 }
 
+// c16CollideNames: names whose concatenations coincide (function name +
+// parameter name, or a global's name): "a"+"bc" = "ab"+"c" = global "abc",
+// "a"+"rr" = global "arr". Nothing may be keyed by such a concatenation.
+func c16CollideNames() *c16Names {
+	return &c16Names{F: []string{"a", "ab", "abx"}, P: [][]string{{"bc", "rr"}, {"c", "xrr"}, {"rr", "c"}}, G: []string{"abc", "arr"}, N: "abxrr",
+		Z: func(i int) string { return "abc" + strconv.Itoa(i) }}
+}
+
 // c16ReverseNames maps the sorted list of the names used by the program onto
 // itself in reverse order.
 func c16ReverseNames(u *c16Univ, nz int) *c16Names {
@@ -822,7 +830,7 @@ func (st *c16State) variants(nf, level int) []c16Variant {
 	var out []c16Variant
 	switch level {
 	case 2:
-		for ni := 0; ni < 5; ni++ {
+		for ni := 0; ni < 6; ni++ {
 			for _, p := range perms {
 				out = append(out, c16Variant{ni, p, true})
 			}
@@ -838,9 +846,9 @@ func (st *c16State) variants(nf, level int) []c16Variant {
 		if nf >= 3 {
 			out = append(out, c16Variant{0, rev, true})
 		}
-		out = append(out, c16Variant{1, perms[0], true}, c16Variant{2, perms[0], true}, c16Variant{3, perms[0], true}, c16Variant{4, perms[0], true}, c16Variant{1, rev, true})
+		out = append(out, c16Variant{1, perms[0], true}, c16Variant{2, perms[0], true}, c16Variant{3, perms[0], true}, c16Variant{4, perms[0], true}, c16Variant{5, perms[0], true}, c16Variant{5, rev, true}, c16Variant{1, rev, true})
 	default:
-		out = append(out, c16Variant{0, perms[0], true}, c16Variant{1, rev, false}, c16Variant{4, perms[0], true})
+		out = append(out, c16Variant{0, perms[0], true}, c16Variant{1, rev, false}, c16Variant{4, perms[0], true}, c16Variant{5, perms[0], true})
 	}
 	if st.vars == nil {
 		st.vars = map[int][]c16Variant{}
@@ -849,7 +857,7 @@ func (st *c16State) variants(nf, level int) []c16Variant {
 	return out
 }
 
-var c16NamingIDs = []string{"base", "reversed", "alpha", "shadow", "special"}
+var c16NamingIDs = []string{"base", "reversed", "alpha", "shadow", "special", "collide"}
 
 func (u *c16Univ) eval(c *core.Ctx, st *c16State, set []int, o c16Opts) {
 	ir := u.build(set)
@@ -884,7 +892,7 @@ func (u *c16Univ) eval(c *core.Ctx, st *c16State, set []int, o c16Opts) {
 		expOut = u.simulate(ir, types)
 	}
 	baseOK := true
-	var items [5][]string
+	var items [6][]string
 	var baseSrc string
 	for vi, va := range st.variants(len(u.K), o.Variants) {
 		if items[va.Naming] == nil {
@@ -898,6 +906,8 @@ func (u *c16Univ) eval(c *core.Ctx, st *c16State, set []int, o c16Opts) {
 				nm = c16AltNames()
 			case 4:
 				nm = c16SpecialNames()
+			case 5:
+				nm = c16CollideNames()
 			default:
 				nm = c16ShadowNames(u, set)
 			}
